@@ -28,7 +28,7 @@ theorem view_eq_viewWith (cfg : Config) (c : Client) (user ip : String) (ep : En
 theorem viewWith_entitled {al : Key → Bool} {cfg : Config} {user ip : String} {ep : Endpoint} {n : String}
     (hn : ep.keyName = some n)
     (hs : (viewWith al cfg user ip ep).is2xx = true ∨ (viewWith al cfg user ip ep).events ≠ []) :
-    ∃ t, resolve cfg n = some t ∧ al t = true ∧ ∀ e ∈ (viewWith al cfg user ip ep).events, e.token = t.token := by
+    ∃ t, resolve cfg n = some t ∧ al t = true ∧ ∀ e ∈ (viewWith al cfg user ip ep).events, e.token = t.token ∧ e.key = t.name := by
   cases ep with
   | health => simp [Endpoint.keyName] at hn
   | directory => simp [Endpoint.keyName] at hn
